@@ -26,7 +26,7 @@ lattice models and the noise model of C07 behind it (`Model/GuiRoutesLib.lean`).
   `options_forwarded` (EVERY option control of the decoder folder — `max_bp_iter`, `channel_update`,
   `alpha`, `beta` — reaches exactly the decoders whose constructor has a parameter of that name;
   every keyword passed is accepted), `decoder_options_read`.
-* `new_errors_is_model_sample`: with the lattice and noise models as the library, `/new-errors`
+* `new_errors_is_model_sample` (in `Properties/C20RoutesNoise.lean`): with the lattice and noise models as the library, `/new-errors`
   returns `generate` of `probability_distribution` of the requested direction, rate and noise
   deformation on the requested class and size (C07 says what that distribution is), all `2n` entries.
 * `decoder_names_route`: `/decoder-names` = `offeredDecoders` of the class the menu name denotes.
